@@ -91,6 +91,8 @@ class Recorder:
         self.log = []
         self.hooks = {}          # name -> callable(entry) executed inside notify
         self.names = None
+        self.tc_seen = []        # [announced time, simulator clock read inside the notification] per TIME_CHANGED
+        self.sim = None
         self.skip = set()        # notification names NOT to subscribe to (see C04: listeners removed by initialize)
 
     def _types(self):
@@ -101,6 +103,7 @@ class Recorder:
                 R.WARMUP_EVENT: "WARMUP"}
 
     def subscribe(self, sim):
+        self.sim = sim
         self.names = self._types()
         for et, name in self.names.items():
             if name not in self.skip:
@@ -112,6 +115,9 @@ class Recorder:
         entry = [name, enc_obs(ts), enc_obs(event.content) if isinstance(event.content, (int, float)) else
                  (None if event.content is None else repr(event.content))]
         self.log.append(entry)
+        if name == "TIME_CHANGED":
+            # what a listener of the notification sees when it looks at the clock
+            self.tc_seen.append([entry[1], enc_obs(self.sim.simulator_time)])
         h = self.hooks.get(name)
         if h is not None:
             h(entry)
